@@ -32,6 +32,7 @@ type Adv struct {
 	Names      map[string]string // cid -> readable name
 	WriteList  []string
 	PubAddr    string // wildcard database opened first when options are reused
+	conc       uint
 	counter    int
 }
 
@@ -45,13 +46,15 @@ type AdvOptions struct {
 	// ReusedOptions: the victim (and the non-writer's local replica) open a wildcard database of A first and
 	// then the attacked database with the SAME options value, as an application holding one options struct does
 	ReusedOptions bool
+	// Concurrency (with SimpleDirect): replication concurrency of the replicas built by the store constructor
+	Concurrency uint
 }
 
 func NewAdv(o AdvOptions) (*Adv, error) {
 	if o.Kind == "" {
 		o.Kind = "eventlog"
 	}
-	w := &Adv{Kind: o.Kind, Net: sim.NewNet(), Names: map[string]string{}}
+	w := &Adv{Kind: o.Kind, Net: sim.NewNet(), Names: map[string]string{}, conc: o.Concurrency}
 	w.Net.PubSub.AutoDeliver = false
 	start := func(name string) (*sim.Instance, error) { return w.Net.AddPeer(name).Start(nil) }
 	var err error
@@ -155,7 +158,7 @@ func (w *Adv) SimpleStore(inst *sim.Instance) (iface.Store, error) {
 	}
 	return eventlogstore.NewOrbitDBEventLogStore(inst.Peer.API(), inst.DB.Identity(), addr, &iface.NewStoreOptions{
 		EventBus: eventbus.NewBus(), AccessController: acs, Cache: ds, CacheDestroy: func() error { return nil },
-		Replicate: boolp(false), IO: logio.CBOR(),
+		Replicate: boolp(false), IO: logio.CBOR(), ReplicationConcurrency: w.conc,
 	})
 }
 
